@@ -186,7 +186,6 @@ def mutate(g, rng, b, fds):
 class Be(Family):
     name = "be"
     shards = 16
-    spec = False
 
     def one(self, rng, malformed, maxlen):
         g = Gen(rng)
